@@ -186,10 +186,15 @@ var stCanon = stats.New("canonical")
 // gives the same canonical set, and RLP encode/decode preserves it.
 func TestC12Canonical(t *testing.T) {
 	rapid.Check(t, func(t *rapid.T) {
-		all := rapid.SliceOfNDistinct(genID(), 11, 11, func(x uint32) uint32 { return x }).Draw(t, "ids")
-		k := rapid.IntRange(0, 8).Draw(t, "members")
-		members, others, spare := all[:k], all[k:10], all[10]
-		const maxW = 1 << 27
+		// mostly small sets; one case in five has up to 40 members (sorting networks and insertion sort stop at
+		// about a dozen elements: larger sets take other code paths of the sort)
+		poolN, maxW := 11, uint32(1<<27)
+		if rapid.IntRange(0, 4).Draw(t, "largeSet") == 0 {
+			poolN, maxW = 43, uint32(1<<25)
+		}
+		all := rapid.SliceOfNDistinct(genID(), poolN, poolN, func(x uint32) uint32 { return x }).Draw(t, "ids")
+		k := rapid.IntRange(0, poolN-3).Draw(t, "members")
+		members, others, spare := all[:k], all[k:poolN-1], all[poolN-1]
 		tie := rapid.Uint32Range(1, maxW).Draw(t, "tie")
 		genW := rapid.OneOf(rapid.Uint32Range(1, 3), rapid.Just(tie), rapid.Just(tie), rapid.Just(tie+1), rapid.Uint32Range(1, maxW))
 		m := map[uint32]uint32{}
